@@ -208,7 +208,7 @@ def cdcn_key(l):
     return (l.get('gen'), p.get('out'), p.get('pc'), p.get('tt'), min(len(toks), 12), tuple(sorted(set(toks)))[:8])
 
 PROPS['C12'] = dict(
-    id='C12', modules=['CollectionModel.Props.C12', 'CollectionModel.Props.C12Total', 'CollectionModel.Tie.Facts', 'CollectionModel.Tie.Scanner'], key=cdcn_key, nontrivial=lambda l: len(l.get('src', [])) > 0,
+    id='C12', modules=['CollectionModel.Props.C12', 'CollectionModel.Props.C12Total', 'CollectionModel.Tie.Facts', 'CollectionModel.Tie.Scanner', 'CollectionModel.Tie.QueueSync'], key=cdcn_key, nontrivial=lambda l: len(l.get('src', [])) > 0,
     timeout=dict(quick=900, thorough=3000),
     rule="cases = one ParseSource call on one source string, observed as: the real scanner's token stream (kind, length, line, "
          "column per token), strconv's verdict on every literal token, the outcome (value / located diagnostic with token kind, "
@@ -223,7 +223,7 @@ PROPS['C12'] = dict(
 )
 
 PROPS['C11'] = dict(
-    id='C11', modules=['CollectionModel.Props.C11', 'CollectionModel.Props.C11Complete', 'CollectionModel.Tie.Scanner'], key=lambda l: (l.get('gen'), (l.get('parse') or {}).get('out'), min(l.get('size', 0), 12), tuple(sorted(set(t.get('tt') for t in l.get('toks', []))))[:9], min(len(l.get('toks', [])), 40) // 4),
+    id='C11', modules=['CollectionModel.Props.C11', 'CollectionModel.Props.C11Complete', 'CollectionModel.Props.C11Lex', 'CollectionModel.Tie.Scanner', 'CollectionModel.Tie.QueueSync'], key=lambda l: (l.get('gen'), (l.get('parse') or {}).get('out'), min(l.get('size', 0), 12), tuple(sorted(set(t.get('tt') for t in l.get('toks', []))))[:9], min(len(l.get('toks', [])), 40) // 4),
     nontrivial=lambda l: True, timeout=dict(quick=900, thorough=3000),
     rule="cases = one sentence derived from the grammar of Syntax.cdsn by a recursive generator (inline and multi-line item "
          "lists, the empty forms, every literal alternative incl. boundary literals, all seven contexts, nesting to depth 4, "
@@ -270,7 +270,7 @@ Q_RULE = ("cases = one run of one small client program on the real queue under t
           "schedules; distinct = distinct (program shape, final status, sequence of (step kind, thread))")
 
 PROPS['C04'] = dict(
-    id='C04', modules=['CollectionModel.Props.C04'], stress='C04stress', key=q_key, nontrivial=lambda l: l.get('k') == 'qtrace' and len(l.get('evs', [])) > 4,
+    id='C04', modules=['CollectionModel.Props.C04', 'CollectionModel.Tie.QueueSync'], stress='C04stress', key=q_key, nontrivial=lambda l: l.get('k') == 'qtrace' and len(l.get('evs', [])) > 4,
     rule=Q_RULE, timeout=dict(quick=900, thorough=6000),
     exhaustive_subspaces="all schedules of the programs whose DFS finished within the budget (number reported in the qmeta line of the run)",
     level_text="Lean 4 theorems over a transition system at the granularity of the synchronisation operations with an ARBITRARY thread list: C04_inv_reachable (|values| = tokens + consumers holding a token + producers that appended but not sent; tokens <= capacity; appended = removed ++ values – in every reachable state of every interleaving), C04_pop_never_fails, C04_fifo (one FIFO order: each RemoveHead returns the oldest value not yet removed; nothing invented, lost, duplicated, reordered), C04_closed_drained (ok=false only when closed and no token left), C04_backpressure, C04_observers (GetSize <= capacity; AsArray = added-not-removed in FIFO order), C04_linearizable (each step acts on the list as the atomic FIFO spec at a linearisation point inside the call). Hypotheses = client obligations: no AddValue overlapping CloseQueue, RemoveAll only when no AddValue/RemoveHead is in flight; outside them the code violates the property (C04_counterexample_removeall, C04_counterexample_close_during_add: recorded findings). Tie: every recorded real trace is replayed step by step on the model (trace inclusion).",
@@ -278,7 +278,7 @@ PROPS['C04'] = dict(
 )
 
 PROPS['C05'] = dict(
-    id='C05', modules=['CollectionModel.Props.C05', 'CollectionModel.Props.C05Term', 'CollectionModel.Tie.Facts'], key=q_key, nontrivial=lambda l: True, rule=Q_RULE + "; plus the three constructor entry points (MakeFromArray, MakeFromSequence, a parsed Queue literal) for every N in 0..4*capacity+1 under a watchdog",
+    id='C05', modules=['CollectionModel.Props.C05', 'CollectionModel.Props.C05Term', 'CollectionModel.Tie.Facts', 'CollectionModel.Tie.QueueSync'], key=q_key, nontrivial=lambda l: True, rule=Q_RULE + "; plus the three constructor entry points (MakeFromArray, MakeFromSequence, a parsed Queue literal) for every N in 0..4*capacity+1 under a watchdog",
     timeout=dict(quick=900, thorough=6000),
     exhaustive_subspaces="constructors: every N in 0..65 through all three entry points; schedules as C04",
     level_text="Lean 4 theorems (any number of threads, every reachable state): C05_recv_enabled_iff / C05_send_enabled_iff (a blocked call can proceed exactly when the queue's state permits), C05_no_mutual_block (a consumer blocked on empty and a producer blocked on full never coexist), C05_recv_after_send / C05_recv_after_close / C05_send_after_recv (the step that changes the state enables the blocked call: no lost wake-up), C05_ctor_returns (constructing from N values never blocks once capacity >= N, for every N). Negative: C05_counterexample_removeall_breaks_accounting. Program level (Props/C05Term.lean), for any capacity >= 1, any producers with any value lists, any number >= 1 of consumers and a closer, under EVERY schedule: C05_step_decreases (every step of every goroutine strictly decreases a measure), C05_run_bounded (no run is longer than the initial measure: no infinite schedule), C05_no_deadlock (in every reachable state either every goroutine has finished or some goroutine can step: no lost wake-up at program level), C05_final_consumed (then the queue is empty, holds no token, and popped = appended in order), C05_program_terminates (the three together from a program's initial state), C05_steps_are_queue_steps (every program step is one or two events of the queue transition system, so the program model adds nothing to the protocol).",
@@ -286,7 +286,7 @@ PROPS['C05'] = dict(
 )
 
 PROPS['C06'] = dict(
-    id='C06', modules=['CollectionModel.Props.C06', 'CollectionModel.Props.C06Split', 'CollectionModel.Props.C06Term', 'CollectionModel.Props.C06TermSplit', 'CollectionModel.Props.C06TermJoin'], stress='C06stress',
+    id='C06', modules=['CollectionModel.Props.C06', 'CollectionModel.Props.C06Split', 'CollectionModel.Props.C06Term', 'CollectionModel.Props.C06TermSplit', 'CollectionModel.Props.C06TermJoin', 'CollectionModel.Tie.QueueSync'], stress='C06stress',
     key=lambda l: (l.get('k'), l.get('op'), len(l.get('input', [])), l.get('fan'), l.get('cap'), l.get('status'), l.get('mode'), l.get('steps'), l.get('elem')),
     nontrivial=lambda l: l.get('k') == 'pipe', timeout=dict(quick=900, thorough=6000),
     rule="cases = one run of {feeder, library helper goroutine(s), one reader per output} for Fork, Split or Split+Join on the real "
